@@ -112,7 +112,9 @@ var (
 
 func genEnv(c *fw.Case) t1env {
 	r := c.R
-	nums := []uint64{0, 5, 50, 999, 123456, math.MaxUint64, math.MaxInt64}
+	// what the chain answers: realistic block heights only (the final / head block is not request content; with a final
+	// block of 2^64-1 tier1 would legitimately plan 10^16 segments of back-processing)
+	nums := []uint64{0, 5, 50, 999, 5000, 123456}
 	return t1env{
 		FirstStreamable: []uint64{0, 0, 0, 0, 1, 2, 100}[r.Intn(7)],
 		SegmentSize:     []uint64{1, 10, 100, 1000}[r.Intn(4)],
